@@ -35,7 +35,31 @@ def h_pipeline(ctx: Ctx, cfg):
     synth.pipeline(ctx, cfg, check_program)
 
 
-HARNESSES = {"pipeline": h_pipeline}
+def h_stack_lasso(ctx: Ctx, cfg):
+    """the stack mapper's loop has no iteration bound of its own: on a short periodic genome it must
+    still return a program or raise the library's error.  Symbolic exploration: more than
+    `reads` gene reads without either is reported; the concrete replay lets the same genome run up
+    to 100000 reads before calling it non-termination."""
+    from geneticengine.representations import stackgggp as STACK
+
+    from vf.engine.sym import FuelList, sym_genes
+
+    fx, g = synth.make_grammar(ctx, cfg)
+    n = ctx.cint(1, cfg["genes"], "genes")
+    genes = sym_genes(ctx, n, hi=cfg.get("gene_max", 10**6))
+    cap = cfg["reads"] if ctx.mode == "sym" else 100000
+    dna = FuelList(genes, ctx, cap, fail_clause="termination:stack-mapper-neither-returns-nor-fails-on-a-periodic-genome")
+    rep = STACK.StackBasedGGGPRepresentation(g, gene_length=n, failures_limit=cfg.get("failures_limit", 3))
+    try:
+        p = rep.genotype_to_phenotype(STACK.Genotype(dna))
+    except synth.LIBRARY_ERRORS:
+        ctx.reached()
+        return
+    ctx.reached()
+    check_program(ctx, fx, g, p, "map")
+
+
+HARNESSES = {"pipeline": h_pipeline, "stack_lasso": h_stack_lasso}
 
 
 def obligations(tier: str):
@@ -98,6 +122,7 @@ def obligations(tier: str):
                     add(f"{rep}_{dec}_f1_create", fixture="f1", rep=rep, decider=dec, max_depth=3, gene_length=gl)
             add(f"{rep}_f4_create", fixture="f4", rep=rep, decider="grow", max_depth=4, gene_length=gl)
             add(f"{rep}_f5_create", fixture="f5", rep=rep, decider="grow", max_depth=3, gene_length=gl)
+    obs.append(Ob("stack_lasso", {"fixture": "f0", "genes": 2, "reads": 40, "failures_limit": 2, "fuel": 30}, name="stack_mapper_terminates_on_short_genomes_f0", timeout=120, stop_after_known=True, smoke=0))
     # --- stack representation (fuel-bounded: see DESIGN C01/C07)
     add("stack_f1_create", fixture="f1", rep="stack", gene_length=3 if not T else 4, failures_limit=1, gene_fuel=8 if not T else 12, timeout=150)
     if T:
